@@ -30,6 +30,10 @@ CHECKS = {
                 technique="runtime monitoring under hostile workloads: panic capture, counting-allocator heap bound, read/endless-stream fuel and wall watchdog as always-on monitors over exhaustive small-alphabet strings, mutations and endless streams; crashes attributed per shard process",
                 text="Every string up to length 5 (quick) / 7 (thorough) over a 9-symbol alphabet as head remainder, chunked body and CONNECT reply; mutated valid responses (incl. numeric blow-ups to 2^64 and beyond); 12 endless constructs; declared sizes >= 2^40 -- each driven through send() and every body API to the end plus three reads, while monitors watch for panics/aborts, heap above 256 KiB + 4x bytes seen, spinning at EOF, unbounded pulls from endless streams, more than max_redirections+1 dials, and non-termination.",
                 note="Bounds are engineering bounds (2x the documented limit + one buffer); the wall watchdog is inconclusive unless reproduced alone. Memory safety of dependencies is addressed only as far as Miri/valgrind passes reach (see DESIGN.md)."),
+    "C06": dict(cat="fault_enumeration", design="DESIGN.md §3 C06",
+                technique="runtime monitoring with fault injection: reference encoders (flate2 levels 0-9, hand-written stored/fixed-Huffman encoder, gzip header options) produce the streams; every truncation offset and every trailer bit flip is served; payload is the prefix oracle after every read",
+                text="Compressed responses over all block types, levels, gzip header options, coding declarations (letter case, lists, Content-/Transfer-Encoding), framings, segmentations and read plans must decode to exactly the payload; unknown codings must pass through unchanged; every truncation offset of 10 fixed streams (framing adjusted or left short) and every bit flip of the gzip trailer must end with Err with only a payload prefix delivered; corrupted gzip bodies must not decode cleanly to different bytes; Accept-Encoding is observed on the wire.",
+                note="Trusts the reference encoders (cross-checked against flate2's decoder in the harness unit test). zlib-wrapped deflate, multi-member gzip and flips in raw-deflate bodies are outside the judged zone."),
 }
 
 NOT_APPLICABLE = {}
